@@ -82,10 +82,10 @@ func (f *Dox) Call(s *slip.Scope, args slip.List, depth int) (result slip.Object
 					}
 					return tr
 				case *GoTo:
-					for i++; i < len(args); i++ {
-						if args[i] == tr.Tag {
-							break
-						}
+					// The tag can be before or after the go. If it is not a
+					// tag of this body it belongs to an enclosing tagbody.
+					if i = tagIndex(args, 2, tr.Tag); i < 0 {
+						return tr
 					}
 				}
 				// Anything other than ReturnResult or GoTo just continues.
